@@ -90,6 +90,23 @@ def gen_c09():
     return 0, out_all
 
 
+def gen_src_oneshot():
+    """C10: regenerate lean/RSVerif/Gen/SrcOneShot.lean from lib.rs (one-shot encode / decode); needs SrcWork (enum Error)"""
+    rc, out = gen_src_work()
+    if rc != 0:
+        return rc, out
+    o = os.path.join(VERIF, "lean", "RSVerif", "Gen", "SrcOneShot.lean")
+    p = subprocess.run([sys.executable, os.path.join(VERIF, "translate", "rs2lean_oneshot.py"), "/repo", o],
+                       stdout=subprocess.PIPE, stderr=subprocess.STDOUT, text=True)
+    return p.returncode, out + p.stdout
+
+
+TECH_TRO = ("Lean 4 machine-checked proof; the one-shot functions encode / decode of src/lib.rs are TRANSLATED from the current Rust "
+            "source on every run (translate/rs2lean_oneshot.py -> Gen/SrcOneShot.lean: sequences of calls of an abstract streaming "
+            "API) and proved equal to the streaming sequences of the property; the rest on a hand-written model + differential "
+            "correspondence with the crate")
+
+
 def gen_statics():
     """C05 / C16: regenerate lean/RSVerif/Gen/Statics.lean (global state declared in today's source)"""
     out = os.path.join(VERIF, "lean", "RSVerif", "Gen", "Statics.lean")
@@ -239,6 +256,7 @@ PROPS = {
         "shard) for every input with at least one shard; documented errors otherwise; errors truthful; never panic. Direct oracle: one-shot vs "
         "streaming on the implementation for valid and mutated tuples.",
         "cases = argument tuples of encode/decode (valid + mutated: duplicates, out-of-range, wrong sizes, too few/many, no-recovery branch)",
+        pre_lean=gen_src_oneshot, technique=TECH_TRO,
         design_ref="DESIGN.md §6 C10",
     ),
     "C11": P(
